@@ -308,6 +308,8 @@ def run(ctx):
             search(ctx, exe)
     from vf.props import C13
     C13.as_layer(ctx, "the semaphore's waiter queue (include/mpmc_fifo.h is an anchor of C06)")
+    from vf.props import C01
+    C01.runtime_layer(ctx, "sem", "semaphore on the whole runtime", [4, 4, 5, 5, 1, 18], quick_n=120, seedoff=6)
     core.init_contract(ctx, ["fiber_semaphore"])  # rt/h_init.c: real init on dirty memory
     core.finish(ctx, extra_assumptions=ASSUME)
 
@@ -329,6 +331,9 @@ def search(ctx, exe):
 
 
 def replay(ctx, payload):
+    if payload.get("harness") == "kernel":
+        from vf.props import C01
+        return C01.replay(ctx, payload)
     if str(payload.get("harness", "")).split("+")[0] == "mpmc":
         from vf.props import C13
         return C13.replay(ctx, payload)
